@@ -13,9 +13,8 @@ theorem C16_recovery_shapes : Facts.recoveryShapes =
     [("WithStatusRecovery", "w|http.StatusText(status)|status"), ("WithWriteRecovery", "w|http.StatusText(status)|status"),
      ("WithLogRecovery", "w|http.StatusText(status)|status"), ("WithSLogRecovery", "w|http.StatusText(status)|status")] := by decide
 
-/-- The model's table of `http.StatusText` lengths agrees with the toolchain that builds the harness, on every code the
-harness configures and on unknown codes. -/
-theorem C16_statusText : Facts.statusTextLens.all (fun e => statusTextLen e.1 = e.2) = true := by decide
+/-- The model's table of `http.StatusText` lengths agrees with the toolchain that builds the harness, on every code 0..599. -/
+theorem C16_statusText : Facts.statusTextLens.all (fun e => statusTextLen e.1 = e.2) = true := by decide +kernel
 
 /-- `Get/Post/Delete/Put/Patch` of Router, Prefix and Resource pass the method they are named after to `Handle`; `Any`
 passes none (C19: the shorthand methods are `Handle` calls). -/
